@@ -600,5 +600,70 @@ pub fn run(mut run: Run) -> i32 {
             }
         });
     }
+    // deeply nested rings (shell, hole, island, hole, island ...: up to five levels) triangulated member by member and stitched back with the triangle list in
+    // every rotation, reversed, and interleaved: the nesting must be recovered whatever ring the stitcher happens to build first
+    {
+        let sq = |lo: f64, hi: f64| geo::LineString::from(vec![(lo, lo), (hi, lo), (hi, hi), (lo, hi), (lo, lo)]);
+        let tri = |lo: f64, hi: f64| geo::LineString::from(vec![(lo, lo), (hi, lo), (lo + 1.0, hi), (lo, lo)]);
+        let nests: Vec<(&str, Vec<Polygon<f64>>)> = vec![
+            ("squares 3 members", vec![Polygon::new(sq(0.0, 16.0), vec![sq(2.0, 14.0)]), Polygon::new(sq(4.0, 12.0), vec![sq(6.0, 10.0)]), Polygon::new(sq(7.0, 9.0), vec![])]),
+            ("squares 2 members", vec![Polygon::new(sq(0.0, 16.0), vec![sq(2.0, 14.0)]), Polygon::new(sq(4.0, 12.0), vec![sq(6.0, 10.0)])]),
+            ("squares, innermost first", vec![Polygon::new(sq(7.0, 9.0), vec![]), Polygon::new(sq(4.0, 12.0), vec![sq(6.0, 10.0)]), Polygon::new(sq(0.0, 16.0), vec![sq(2.0, 14.0)])]),
+            ("triangles in squares", vec![Polygon::new(sq(0.0, 20.0), vec![tri(1.0, 18.0)]), Polygon::new(tri(2.5, 12.0), vec![sq(4.0, 6.0)]), Polygon::new(sq(4.5, 5.5), vec![])]),
+            ("two islands side by side", vec![Polygon::new(sq(0.0, 20.0), vec![sq(1.0, 19.0)]), Polygon::new(geo::LineString::from(vec![(2.0, 2.0), (9.0, 2.0), (9.0, 9.0), (2.0, 9.0), (2.0, 2.0)]), vec![geo::LineString::from(vec![(3.0, 3.0), (8.0, 3.0), (8.0, 8.0), (3.0, 8.0), (3.0, 3.0)])]), Polygon::new(geo::LineString::from(vec![(11.0, 11.0), (18.0, 11.0), (18.0, 18.0), (11.0, 18.0), (11.0, 11.0)]), vec![geo::LineString::from(vec![(12.0, 12.0), (17.0, 12.0), (17.0, 17.0), (12.0, 17.0), (12.0, 12.0)])]), Polygon::new(sq(4.0, 7.0), vec![]), Polygon::new(sq(13.0, 16.0), vec![])]),
+        ];
+        let lists: Vec<(String, Vec<Triangle<f64>>, f64, usize)> = nests
+            .iter()
+            .flat_map(|(name, members)| {
+                let ear: Vec<Triangle<f64>> = members.iter().flat_map(|m| m.earcut_triangles()).collect();
+                let want: f64 = members.iter().map(|m| m.unsigned_area()).sum();
+                let mut v = vec![(format!("{} / ear-cut per member", name), ear, want, members.len())];
+                if let Ok(cdt) = TriangulateDelaunay::constrained_triangulation(&MultiPolygon(members.clone()), DelaunayTriangulationConfig::default()) {
+                    v.push((format!("{} / constrained Delaunay of the MultiPolygon", name), cdt, want, members.len()));
+                }
+                v
+            })
+            .collect();
+        let maxlen = lists.iter().map(|l| l.1.len()).max().unwrap_or(0);
+        run.stage("stitch-nested-rings-every-rotation", lists.len() * maxlen * 3, |idx, acc| {
+            let (name, tris, want, nmem) = &lists[idx / (maxlen * 3)];
+            let (rot, mode) = ((idx / 3) % maxlen, idx % 3);
+            if rot >= tris.len() {
+                return;
+            }
+            let mut t: Vec<Triangle<f64>> = tris[rot..].iter().chain(tris[..rot].iter()).cloned().collect();
+            match mode {
+                1 => t.reverse(),
+                2 => {
+                    // interleave the two halves
+                    let h = t.len() / 2;
+                    let (a, b) = t.split_at(h);
+                    let mut z = vec![];
+                    for i in 0..b.len() {
+                        if i < a.len() {
+                            z.push(a[i]);
+                        }
+                        z.push(b[i]);
+                    }
+                    t = z;
+                }
+                _ => {}
+            }
+            acc.evals += 1;
+            acc.class(format!("stitch nested: {} mode{}", name, mode));
+            match guard(|| t.stitch_triangulation()) {
+                Ok(Ok(mp)) => {
+                    let a = mp.unsigned_area();
+                    let holes: usize = mp.0.iter().map(|p| p.interiors().len()).sum();
+                    if (a - want).abs() > 1e-9 || mp.0.len() != *nmem {
+                        acc.viol("stitch_triangulation of nested rings: area or member count differs from the input".into(), idx, || {
+                            json!({"input": name, "rotation": rot, "mode": mode, "stitched": format!("{:?}", mp), "area": a, "expected_area": want, "members": mp.0.len(), "expected_members": nmem, "holes": holes})
+                        });
+                    }
+                }
+                other => acc.viol("stitch_triangulation of nested rings failed/panicked".into(), idx, || json!({"input": name, "rotation": rot, "mode": mode, "result": format!("{:?}", other).chars().take(300).collect::<String>()})),
+            }
+        });
+    }
     run.finish()
 }
